@@ -773,3 +773,112 @@ impl Code {
         std::mem::take(&mut self.bytes)
     }
 }
+
+/// Block type as the generator sees it.
+#[derive(Clone, Debug, PartialEq)]
+pub enum BT {
+    Empty,
+    Val(VT),
+    Type(u32),
+}
+
+/// Hand-encoded instructions (control flow, variables, references, tables, bulk memory).
+impl Code {
+    pub fn b(&mut self, x: u8) -> &mut Code {
+        self.bytes.push(x);
+        self
+    }
+    pub fn u(&mut self, x: u32) -> &mut Code {
+        leb_u32(&mut self.bytes, x);
+        self
+    }
+    fn bt(&mut self, t: &BT) -> &mut Code {
+        match t {
+            BT::Empty => self.bytes.push(0x40),
+            BT::Val(v) => self.bytes.push(v.byte()),
+            BT::Type(i) => leb_i64(&mut self.bytes, *i as i64),
+        }
+        self
+    }
+    pub fn unreachable(&mut self) -> &mut Code { self.b(0x00) }
+    pub fn nop(&mut self) -> &mut Code { self.b(0x01) }
+    pub fn block(&mut self, t: &BT) -> &mut Code { self.b(0x02).bt(t) }
+    pub fn loop_(&mut self, t: &BT) -> &mut Code { self.b(0x03).bt(t) }
+    pub fn if_(&mut self, t: &BT) -> &mut Code { self.b(0x04).bt(t) }
+    pub fn else_(&mut self) -> &mut Code { self.b(0x05) }
+    pub fn end_(&mut self) -> &mut Code { self.b(0x0b) }
+    pub fn br(&mut self, l: u32) -> &mut Code { self.b(0x0c).u(l) }
+    pub fn br_if(&mut self, l: u32) -> &mut Code { self.b(0x0d).u(l) }
+    pub fn br_table(&mut self, ls: &[u32], d: u32) -> &mut Code {
+        self.b(0x0e).u(ls.len() as u32);
+        for l in ls {
+            self.u(*l);
+        }
+        self.u(d)
+    }
+    pub fn return_(&mut self) -> &mut Code { self.b(0x0f) }
+    pub fn call(&mut self, f: u32) -> &mut Code { self.b(0x10).u(f) }
+    pub fn call_indirect(&mut self, ty: u32, table: u32) -> &mut Code { self.b(0x11).u(ty).u(table) }
+    pub fn return_call(&mut self, f: u32) -> &mut Code { self.b(0x12).u(f) }
+    pub fn return_call_indirect(&mut self, ty: u32, table: u32) -> &mut Code { self.b(0x13).u(ty).u(table) }
+    pub fn drop_(&mut self) -> &mut Code { self.b(0x1a) }
+    pub fn select(&mut self) -> &mut Code { self.b(0x1b) }
+    pub fn select_t(&mut self, t: VT) -> &mut Code { self.b(0x1c).u(1).b(t.byte()) }
+    pub fn local_get(&mut self, i: u32) -> &mut Code { self.b(0x20).u(i) }
+    pub fn local_set(&mut self, i: u32) -> &mut Code { self.b(0x21).u(i) }
+    pub fn local_tee(&mut self, i: u32) -> &mut Code { self.b(0x22).u(i) }
+    pub fn global_get(&mut self, i: u32) -> &mut Code { self.b(0x23).u(i) }
+    pub fn global_set(&mut self, i: u32) -> &mut Code { self.b(0x24).u(i) }
+    pub fn table_get(&mut self, t: u32) -> &mut Code { self.b(0x25).u(t) }
+    pub fn table_set(&mut self, t: u32) -> &mut Code { self.b(0x26).u(t) }
+    pub fn memory_size(&mut self, m: u32) -> &mut Code { self.b(0x3f).u(m) }
+    pub fn memory_grow(&mut self, m: u32) -> &mut Code { self.b(0x40).u(m) }
+    pub fn i32_const(&mut self, v: i32) -> &mut Code {
+        self.b(0x41);
+        leb_i64(&mut self.bytes, v as i64);
+        self
+    }
+    pub fn i64_const(&mut self, v: i64) -> &mut Code {
+        self.b(0x42);
+        leb_i64(&mut self.bytes, v);
+        self
+    }
+    pub fn f32_const(&mut self, bits: u32) -> &mut Code {
+        self.b(0x43);
+        self.bytes.extend_from_slice(&bits.to_le_bytes());
+        self
+    }
+    pub fn f64_const(&mut self, bits: u64) -> &mut Code {
+        self.b(0x44);
+        self.bytes.extend_from_slice(&bits.to_le_bytes());
+        self
+    }
+    pub fn v128_const(&mut self, v: &[u8; 16]) -> &mut Code {
+        self.b(0xfd).u(0x0c);
+        self.bytes.extend_from_slice(v);
+        self
+    }
+    pub fn ref_null(&mut self, t: VT) -> &mut Code { self.b(0xd0).b(t.byte()) }
+    pub fn ref_is_null(&mut self) -> &mut Code { self.b(0xd1) }
+    pub fn ref_func(&mut self, f: u32) -> &mut Code { self.b(0xd2).u(f) }
+    pub fn memory_init(&mut self, d: u32, m: u32) -> &mut Code { self.b(0xfc).u(8).u(d).u(m) }
+    pub fn data_drop(&mut self, d: u32) -> &mut Code { self.b(0xfc).u(9).u(d) }
+    pub fn memory_copy(&mut self, dst: u32, src: u32) -> &mut Code { self.b(0xfc).u(10).u(dst).u(src) }
+    pub fn memory_fill(&mut self, m: u32) -> &mut Code { self.b(0xfc).u(11).u(m) }
+    pub fn table_init(&mut self, e: u32, t: u32) -> &mut Code { self.b(0xfc).u(12).u(e).u(t) }
+    pub fn elem_drop(&mut self, e: u32) -> &mut Code { self.b(0xfc).u(13).u(e) }
+    pub fn table_copy(&mut self, dst: u32, src: u32) -> &mut Code { self.b(0xfc).u(14).u(dst).u(src) }
+    pub fn table_grow(&mut self, t: u32) -> &mut Code { self.b(0xfc).u(15).u(t) }
+    pub fn table_size(&mut self, t: u32) -> &mut Code { self.b(0xfc).u(16).u(t) }
+    pub fn table_fill(&mut self, t: u32) -> &mut Code { self.b(0xfc).u(17).u(t) }
+    pub fn zero(&mut self, t: VT) -> &mut Code {
+        match t {
+            VT::I32 => self.i32_const(0),
+            VT::I64 => self.i64_const(0),
+            VT::F32 => self.f32_const(0),
+            VT::F64 => self.f64_const(0),
+            VT::V128 => self.v128_const(&[0; 16]),
+            VT::FuncRef | VT::ExternRef => self.ref_null(t),
+        }
+    }
+}
